@@ -122,3 +122,42 @@ def enumerate_three_calls(ops, params, contexts):
                     if src is not None:
                         out.append((src, (shape, ctx, tuple((o[i], p[i], i + 1, "one") for i in range(3)))))
     return out
+
+
+def enumerate_named_functions(contexts=("module", "def", "method")):
+    """one-line / two-line / documented defs passed BY NAME, with neighbours that could be confused with them"""
+    out = []
+    forms = {
+        "def1": "def {n}({p}): return {p}.m{k}{c}",
+        "def2": "def {n}({p}):\n\t    return {p}.m{k}{c}",
+        "defdoc": "def {n}({p}):\n\t    'a doc string with lambda z: z and )'\n\t    return {p}.m{k}{c}",
+        "defcmt": "def {n}({p}):  # lambda q: q.n9 )\n\t    return {p}.m{k}{c}",
+        "lam": "{n} = lambda {p}: {p}.m{k}{c}",
+    }
+    calls = {
+        "one": "r = ds.{o1}(f1)",
+        "two": "r = ds.{o1}(f1).{o2}(f2)",
+        "mixed": "r = ds.{o1}(f1).{o2}(lambda {p2}: {p2}.m3{c2})",
+        "mixed-rev": "r = ds.{o1}(lambda {p1}: {p1}.m3{c1}).{o2}(f2)",
+        "two-lines": "q = ds.{o1}(f1)\n\tr = q.{o2}(f2)",
+    }
+    for f1 in forms:
+        for f2 in forms:
+            for (o1, o2) in (("Select", "Select"), ("Select", "Where"), ("Where", "SelectMany"), ("sel", "Select")):
+                for (p1, p2) in (("e", "e"), ("e", "f")):
+                    c1 = " > 1" if o1 == "Where" else " + 1"
+                    c2 = " > 1" if o2 == "Where" else " + 1"
+                    d1 = forms[f1].format(n="f1", p=p1, k=1, c=c1)
+                    d2 = forms[f2].format(n="f2", p=p2, k=2, c=c2)
+                    for cname, call in calls.items():
+                        if "lam" in (f1, f2) and cname in ("mixed", "mixed-rev", "two", "one", "two-lines"):
+                            # a lambda bound to a name and passed by name is NOT written in the call: recovery is
+                            # allowed to refuse, never to record something else (checked by the same oracle)
+                            pass
+                        stmt = d1 + "\n\t" + d2 + "\n\t" + call.format(o1=o1, o2=o2, p1=p1, p2=p2, c1=c1, c2=c2)
+                        for ctx in contexts:
+                            src = in_context(stmt, ctx)
+                            if src is not None:
+                                out.append((src, ("named:" + cname + ":" + f1 + ":" + f2, ctx,
+                                                  (o1, p1, 1, f1), (o2, p2, 2, f2))))
+    return out
